@@ -10,6 +10,7 @@ import (
 	"net/netip"
 	"os"
 	"os/exec"
+	"sort"
 	"strconv"
 	"strings"
 	"time"
@@ -132,8 +133,44 @@ func (h *hist) wait() census {
 	c, ok := settle(h.afterID, bound)
 	if !ok {
 		h.unsettled = true
+		return c
+	}
+	// confirmation: a settled census can be observed an instant before a goroutine that was just made runnable
+	// shows up as such (seen under heavy load); the observable state must be the same in two settled looks
+	prev := h.fingerprint(c)
+	for i := 0; i < 40; i++ {
+		time.Sleep(100 * time.Microsecond)
+		c2, ok2 := settle(h.afterID, bound)
+		if !ok2 {
+			h.unsettled = true
+			return c2
+		}
+		cur := h.fingerprint(c2)
+		c = c2
+		if cur == prev {
+			break
+		}
+		prev = cur
 	}
 	return c
+}
+
+// fingerprint: what the operations report about the connections, plus the census.
+func (h *hist) fingerprint(c census) string {
+	ids := make([]int, 0, len(h.conns))
+	for id := range h.conns {
+		ids = append(ids, id)
+	}
+	sort.Ints(ids)
+	var b strings.Builder
+	fmt.Fprintf(&b, "%d %d %d %d %d %d %d|", c.acc, c.hc, c.w, c.r, c.wp, c.tm, c.other)
+	for _, id := range ids {
+		fc := h.conns[id]
+		fc.mu.Lock()
+		fmt.Fprintf(&b, "%d:%v:%v:%d:%d;", id, fc.srvClosed, fc.cliClosed, len(fc.out), len(fc.in))
+		fc.mu.Unlock()
+	}
+	return b.String()
 }
 
 func (h *hist) view(cid int) string {
